@@ -49,6 +49,14 @@ def run_job(job):
             args.append([c] + [inv[v] for v in mono[1:]])
         return Polynomial(args)
 
+    def canonical(p):
+        acc = {}
+        for mono in p.args:
+            key = tuple(mono[1:])
+            acc[key] = acc.get(key, 0) + mono[0]
+        args = [[c, *key] for key, c in sorted(acc.items()) if c != 0]
+        return Polynomial(args)
+
     def symform(x):
         e = sympy.together(sympy.nsimplify(x.tosympy()))
         n, d = sympy.fraction(e)
@@ -77,7 +85,7 @@ def run_job(job):
 
     def record(eid, op, a, b=None, n=0):
         ev = {'id': eid, 'kind': 'poly', 'op': op, 'n': int(n), 'raised': '', 'bnum': False, 'bcls': 'P', 'b': [], 'b_after': [],
-              'rcls': 'P', 'res': [], 'res_bool': False, 'res_eq0': False, 'a_eq_b': False, 'hassym': False, 'sym': {'n': [], 'd': []}}
+              'rcls': 'P', 'res': [], 'zdiff': {'rep': [], 'bool': False, 'eq0': True}, 'res_bool': False, 'res_eq0': False, 'a_eq_b': False, 'hassym': False, 'sym': {'n': [], 'd': []}}
         ev['cls'], ev['a'] = enc(a)
         if b is not None:
             if isinstance(b, (int, float, Fraction)):
@@ -104,6 +112,14 @@ def run_job(job):
             if isinstance(r, (int, float)):
                 r = Polynomial(r)
             ev['rcls'], ev['res'] = enc(r)
+            # the same function built as a canonical (sorted, merged) polynomial: their difference is the
+            # zero function, so its zero tests must say so
+            if isinstance(r, Polynomial) and not isinstance(r, RationalPolynomial):
+                z = r - canonical(r)
+                ev['zdiff'] = {'rep': enc(z)[1], 'bool': bool(z), 'eq0': bool(z == 0)}
+            elif isinstance(r, RationalPolynomial) and isinstance(r.numer, Polynomial):
+                z = r.numer - canonical(r.numer)
+                ev['zdiff'] = {'rep': enc(z)[1], 'bool': bool(z), 'eq0': bool(z == 0)}
             ev['res_bool'] = bool(r)
             ev['res_eq0'] = bool(r == 0)
             if b is not None and not ev['bnum']:
